@@ -911,13 +911,18 @@ class SDict(dict[K, V]):
             scope the dict shall be reduced to
         """
         if scope:
-            _scope: list[str] = [str(key) for key in scope]
-            try:
-                reduced_dict = eval("self['" + "']['".join(_scope) + "']")  # noqa: S307
-                self.clear()
-                self.update(reduced_dict)
-            except KeyError as e:
-                logger.warning(f"SDict.reduce_scope(): no scope '{e.args[0]}' in dictionary {self._source_file}")
+            reduced_dict: Any = self
+            for key in scope:
+                if not isinstance(reduced_dict, Mapping) or key not in reduced_dict:
+                    logger.warning(f"SDict.reduce_scope(): no scope '{key}' in dictionary {self._source_file}")
+                    return
+                reduced_dict = reduced_dict[key]
+            if not isinstance(reduced_dict, Mapping):
+                logger.warning(f"SDict.reduce_scope(): scope {scope} in dictionary {self._source_file} is not a dict")
+                return
+            reduced_dict = dict(reduced_dict)
+            self.clear()
+            self.update(reduced_dict)
         return
 
     def reset(self) -> None:
